@@ -136,6 +136,15 @@ def gather(L, p, extra_atoms):
                 F.kind = PIECES[v]
             else:
                 F.kind_excl |= {PIECES[x] for x in v[1] if x < 6}
+        elif e[0] == "bin" and e[1] in ("Eq", "Ne") and ONP in (e[2], e[3]) and isinstance(v, int) and \
+                (e[3] if e[2] == ONP else e[2])[0] == "enum" and (e[3] if e[2] == ONP else e[2])[1] == PIECE:
+            # `piece == Piece::X` on the unwrapped piece
+            other = e[3] if e[2] == ONP else e[2]
+            if (e[1] == "Eq") == bool(v):
+                F.kind = other[2]
+            else:
+                F.kind_excl.add(other[2])
+            F.b["on_some"] = True
         elif e[0] == "bin" and e[1] in ("Eq", "Ne") and ON in (e[2], e[3]) and isinstance(v, int):
             other = e[3] if e[2] == ON else e[2]
             if other[0] == "agg" and other[2] == "Some" and dict(other[4]).get("0") == ("enum", PIECE, "Pawn"):
@@ -181,11 +190,15 @@ def check_is_legal(ctx, f, L):
     opaque_here = set(N.generators.values()) | {N.can_castle, N.king_safe_on, N.roster}
     kil = N.king_is_legal
 
+    own_helpers = N.exclusive_helpers(B + "::is_legal")
+
     def noin(n):
         if n in opaque_here:
             return False
         if kil is not None and n == kil:
             return True            # the king branch is read as part of is_legal, whether or not it is a function of its own
+        if n in own_helpers:
+            return True            # so is any helper only is_legal uses (a branch per piece kind moved into a function)
         return None
     paths = sym.SymExec(f, body, inline=noin, max_depth=6).run()
     where = loc(body)
